@@ -5,6 +5,7 @@ import json
 import os
 
 ROOT = os.path.dirname(os.path.abspath(__file__))
+TECH_K = "Kani"
 TECH_V = "contract-based deductive verification: Verus contracts on functions cut mechanically from /repo on every run"
 TECH_VK = TECH_V + " + Kani (CBMC) harnesses on the real crate"
 
@@ -37,6 +38,14 @@ CLAIMS = {
         text="Verus proves the mapping of every ExecutorError value by Simulation::run (Timeout, Panic with model name and payload, NoRecipient for SendError payloads), that every fatal error sets the terminated flag, and that step/step_until/process on a terminated simulation return Terminated without moving the time or entering the executor (unit sim).",
         note="that the executors produce the right ExecutorError (catch_unwind, CURRENT_MODEL_ID, timeout thread) is not decided; process_event/process_query bodies not under contract",
         ref="DESIGN.md §5 C11", tech=TECH_V),
+    "C12": dict(
+        text="Kani proves, per capacity (1,2 quick; 1..5 thorough) and for every representation-invariant-satisfying state (any sequence count, fill level, open/closed) - i.e. for histories of any length - the sequential contracts of Queue::{push,pop + MessageBorrow::drop,close,len,next_queue_pos}: never more than capacity messages, FIFO, each message exactly once, len exact, Full only when full, after close pushes fail and accepted messages stay receivable. The concurrency half of the property (linearizability under multi-producer interleavings, no lost wake-ups in channel.rs) is NOT decided.",
+        note="sequential execution only (Kani has no threads); capacities enumerated, not symbolic; compare_exchange_weak never fails spuriously; the async Sender/Receiver wake-up pairing is outside the technique",
+        ref="DESIGN.md §5 C12", tech="Kani (CBMC) inductive per-operation contract harnesses appended to the real channel/queue.rs; complete per capacity"),
+    "C14": dict(
+        text="Only the second sentence is decided: Kani proves (loop-free, all u32 values) that a value written through one CachedRwLock clone is what every clone's next synchronised access returns, scratchpad edits never reach the shared value, and later clones start synchronised. Reply matching/ordering (first sentence) is NOT covered: polling the real QueryBroadcaster under Kani timed out (10 min / 6 GB).",
+        note="sequential execution; Output/Requestor are thin wrappers over CachedRwLock<Broadcaster> (not under contract); first sentence not covered",
+        ref="DESIGN.md §5 C14", tech="Kani (CBMC) complete harness appended to the real util/cached_rw_lock.rs"),
     "C17": dict(
         text="Verus proves, for every capacity, buffer content and event, the contracts of EventBufferWriter::write, EventBuffer::{next,open,close,with_capacity*} and EventSlot{,Writer}::{write,next,open,close,new*} on the text cut from /repo on each run.",
         note="sequentialised (Arc/Mutex/AtomicBool elided; try_lock assumed uncontended); vstd VecDeque specs; __try_fold and the sender future not under contract",
@@ -56,9 +65,7 @@ NA = {
     "C03": "decided by the async blocked-sender/wake-up path and task schedules; verifiers accept neither async bodies nor threads (sequential ingredients proved under C01/C12 do not decide it)",
     "C04": "multi-thread idle/park/steal protocol incl. liveness; Kani has no threads, Verus cannot take the real atomics code",
     "C05": "reduces to the single-poller guarantee of the unsafe task state machine under concurrent wakers",
-    "C12": "check not built yet (Kani unit mbox in progress)",
     "C13": "unsafe task state machine; interleavings under the C11 memory model; a sequential bounded Kani run did not finish in 28 min",
-    "C14": "check not built yet (Kani unit crw in progress)",
     "C15": "tearing/staleness exist only in concurrent executions under the C11 model; a sequential contract is vacuous",
     "C16": "guaranteed by a type-state and an async block on the executor; Verus rejects async, Kani cannot execute the executor",
     "C19": "thread joins and cancellation of mutually waking unsafe tasks",
@@ -82,7 +89,7 @@ def main():
         })
     m = {
         "version": 1,
-        "setup_cmd": "true",
+        "setup_cmd": "./setup.sh",
         "hooks": {"guard": "asynchronix_verif", "enable": "RUSTFLAGS='--cfg asynchronix_verif' (only used to replay finding F4; the proofs extract from unmodified sources)",
                   "baseline_off_cmd": "cd /repo && cargo test --workspace --no-fail-fast --offline", "source_commits": [], "add_only": True},
         "engines": [{"name": "vk", "path": "/verif/vk", "serves_properties": sorted(CLAIMS),
